@@ -422,9 +422,15 @@ func cmdCheck(args []string) {
 			if hc.Unwind > 0 {
 				ex.unwind = hc.Unwind
 			}
-			if hc.BudgetS > 0 {
-				ex.deadline = time.Now().Add(time.Duration(hc.BudgetS) * time.Second)
+			budget := hc.BudgetS
+			if budget == 0 {
+				// default wall budget per harness: a run that needs longer is reported as incomplete (exit 2)
+				budget = 1200
+				if *tier == "thorough" {
+					budget = 6 * 3600
+				}
 			}
+			ex.deadline = time.Now().Add(time.Duration(budget) * time.Second)
 			if si > 0 {
 				ex.witnessN = 0
 			}
